@@ -492,6 +492,10 @@ fn run(op: &Value) -> Value {
                     self.0.lock().unwrap().push(json!({"endpoint": "g5", "tok": tok.as_str(), "qt": qt.as_str()}));
                     Ok(())
                 }
+                fn g6(&self, lst: Vec<i32>, sset: std::collections::BTreeSet<String>, q: String) -> Result<(), conjure_error::Error> {
+                    self.0.lock().unwrap().push(json!({"endpoint": "g6", "lst_arg": lst, "set_arg": sset.iter().map(|x| tohex(x.as_bytes())).collect::<Vec<_>>(), "q_arg": tohex(q.as_bytes())}));
+                    Ok(())
+                }
             }
             struct Loop(Vec<Box<dyn Endpoint<Items, Vec<u8>> + Sync + Send>>);
             impl Client for Loop {
@@ -544,6 +548,7 @@ fn run(op: &Value) -> Value {
                 async fn g3(&self, body_arg: String) -> Result<String, conjure_error::Error> { Gsvc::g3(&self.0, body_arg) }
                 async fn g4(&self, set_arg: std::collections::BTreeSet<String>, opt_body: Option<String>) -> Result<Option<String>, conjure_error::Error> { Gsvc::g4(&self.0, set_arg, opt_body) }
                 async fn g5(&self, tok: BearerToken, qt: BearerToken) -> Result<(), conjure_error::Error> { Gsvc::g5(&self.0, tok, qt) }
+                async fn g6(&self, lst: Vec<i32>, sset: std::collections::BTreeSet<String>, q: String) -> Result<(), conjure_error::Error> { Gsvc::g6(&self.0, lst, sset, q) }
             }
             type AItems = futures::stream::Iter<std::vec::IntoIter<Result<bytes::Bytes, conjure_error::Error>>>;
             struct ALoop(Vec<conjure_http::server::BoxAsyncEndpoint<'static, AItems, Vec<u8>>>);
@@ -604,6 +609,11 @@ fn run(op: &Value) -> Value {
                 }
                 "g3" => client.g3(&s("body_arg")).map(|v| Value::String(tohex(v.as_bytes()))),
                 "g5" => client.g5(&tok("tok"), &tok("qt")).map(|_| Value::Null),
+                "g6" => {
+                    let lst: Vec<i32> = op["lst_arg"].as_array().map(|a| a.iter().map(|v| v.as_i64().unwrap() as i32).collect()).unwrap_or_default();
+                    let set: std::collections::BTreeSet<String> = op["set_arg"].as_array().map(|a| a.iter().map(|v| String::from_utf8(hex(v.as_str().unwrap())).unwrap_or_default()).collect()).unwrap_or_default();
+                    client.g6(&lst, &set, &s("q_arg")).map(|_| Value::Null)
+                }
                 "g4" => {
                     let set: std::collections::BTreeSet<String> = op["set_arg"].as_array().map(|a| a.iter().map(|v| String::from_utf8(hex(v.as_str().unwrap())).unwrap_or_default()).collect()).unwrap_or_default();
                     let ob = if op["opt_body"].is_null() { None } else { Some(s("opt_body")) };
